@@ -169,10 +169,10 @@ def sm2_scalar(cx):
            'the table entry is added iff the window is non-zero; the four doublings are skipped only after the last window: %s' % conds, fn.loc())
     g = cx.fn('gm_sm2::p256_ecc::g_mul', 'I-SCALAR')
     if g is not None:
-        W = 'each(enumerate(iter($g)))'
+        LI = 'each(Range::Range{0, 4})'        # limb index and limb of `for (i, w) in g.iter().enumerate()`, in index form
         M = 'each(Range::Range{0, 8})'
-        RAW = '(BitAnd(shr(%s.1, MulWithOverflow(8, %s).0), 255) as usize)' % (W, M)
-        ROW = 'AddWithOverflow(MulWithOverflow(8, %s.0).0, %s).0' % (W, M)
+        RAW = '(BitAnd(shr($g[%s], MulWithOverflow(8, %s).0), 255) as usize)' % (LI, M)
+        ROW = 'AddWithOverflow(MulWithOverflow(8, %s).0, %s).0' % (LI, M)
         tr = I.transfer(g, F, 'Range::Range{0, 8}', ['r', 'raw_index'])
         want_r = 'phi(point_add(var:r@in, to_jacobi(SM2P256_PRECOMPUTED[%s][SubWithOverflow(MulWithOverflow(%s, 2).0, 2).0], SM2P256_PRECOMPUTED[%s][SubWithOverflow(MulWithOverflow(%s, 2).0, 1).0])) | var:r@in)' % (ROW, RAW, ROW, RAW)
         cx.add('I-SCALAR', 'sm2/g_mul/step', tr is not None and tr.get('r') == want_r and tr.get('raw_index') == RAW,
